@@ -218,9 +218,20 @@ func (w *cwriter) Write(b []byte) (int, error) {
 
 type cres struct{ n, res int }
 
-func execC(c Case) (results []cres, stream []int, order []int, overlap bool) {
+func execC(c Case, scratch string) (results []cres, stream []int, order []int, overlap bool) {
 	cw := &cwriter{}
-	s := &writer.Sink{Format: fmtName[c.Fmt], Writer: cw}
+	var s el.Node = &writer.Sink{Format: fmtName[c.Fmt], Writer: cw}
+	var fsPath string
+	if c.FKind == 3 {
+		// the same concurrent calls on a FileSink writing a regular file (its own mutex, one write(2) per value)
+		dir, err := os.MkdirTemp(scratch, "fsc")
+		if err != nil {
+			panic(err)
+		}
+		defer os.RemoveAll(dir)
+		fsPath = filepath.Join(dir, "f.log")
+		s = &el.FileSink{Format: fmtName[c.Fmt], Path: dir, FileName: "f.log"}
+	}
 	byThread := map[int][]Call{}
 	var threads []int
 	for _, cl := range c.Calls {
@@ -268,6 +279,10 @@ func execC(c Case) (results []cres, stream []int, order []int, overlap bool) {
 	wg.Wait()
 	sort.Slice(results, func(i, j int) bool { return results[i].n < results[j].n })
 	stream = intsOf(cw.stream)
+	if fsPath != "" {
+		b, _ := os.ReadFile(fsPath)
+		stream = intsOf(b)
+	}
 	// split the stream back into whole values: every value starts with 60, thread, k
 	vals := map[int][]int{}
 	for _, cl := range c.Calls {
@@ -585,8 +600,12 @@ func (e *emitter) run(c Case) {
 		res, calls := execW(c)
 		e.record(c, litW(c, res, calls), fmt.Sprintf("w:%s:res%d:calls%d", c.Beh, res, len(calls)), len(calls) > 0)
 	case "c":
-		results, stream, order, overlap := execC(c)
-		e.record(c, litC(c, results, stream, order, overlap), fmt.Sprintf("c:threads%02d", threadsOf(c)), len(order) > 1)
+		results, stream, order, overlap := execC(c, e.scratch)
+		dest := "c"
+		if c.FKind == 3 {
+			dest = "c(FileSink)"
+		}
+		e.record(c, litC(c, results, stream, order, overlap), fmt.Sprintf("%s:threads%02d", dest, threadsOf(c)), len(order) > 1)
 	case "f":
 		res, got, skipped := execF(c, e.scratch)
 		if skipped {
@@ -696,6 +715,11 @@ func genC(e *emitter, r *hc.Rand, rounds int) {
 				}
 			}
 			e.run(c)
+			if nt%3 == 1 {
+				fc := c
+				fc.FKind = 3
+				e.run(fc)
+			}
 		}
 	}
 }
@@ -824,7 +848,7 @@ func main() {
 			res, calls := execW(c)
 			fmt.Printf("  -> result %d (0 ok, 1 error, 2 panic), Write calls: %v\n", res, calls)
 		case "c":
-			results, stream, order, overlap := execC(c)
+			results, stream, order, overlap := execC(c, scratch)
 			fmt.Printf("  -> results %v\n  stream %v\n  whole values in stream order %v, overlapping Write calls: %v\n", results, stream, order, overlap)
 		case "f":
 			res, got, skipped := execF(c, scratch)
